@@ -425,6 +425,17 @@ def contract_known_ifexp(fnode, ref: dict) -> int:
     n = 0
     for owner, fld, blk in _blocks(fnode):
         for i, st in enumerate(blk):
+            if isinstance(st, ast.If) and len(st.body) == 1 and len(st.orelse) == 1 and type(st.body[0]) is type(st.orelse[0]) and isinstance(st.body[0], (ast.Return, ast.Expr)) \
+                    and st.body[0].value is not None and st.orelse[0].value is not None:
+                for cand in (ast.IfExp(test=st.test, body=st.body[0].value, orelse=st.orelse[0].value), ast.IfExp(test=_negate(copy.deepcopy(st.test)), body=st.orelse[0].value, orelse=st.body[0].value)):
+                    ast.fix_missing_locations(ast.copy_location(cand, st))
+                    if _unparse(cand) in known:
+                        new = type(st.body[0])(value=cand)
+                        ast.fix_missing_locations(ast.copy_location(new, st))
+                        blk[i] = new
+                        n += 1
+                        break
+                continue
             if isinstance(st, ast.If) and len(st.body) == 1 and isinstance(st.body[0], ast.Assign) and len(st.body[0].targets) == 1 and len(st.orelse) <= 1:
                 tgt = st.body[0].targets[0]
                 if st.orelse:
